@@ -96,35 +96,41 @@ func C02_Scopes() {
 // C02_Curated: hand-picked programs for the corners of the scoping rules.
 func C02_Curated() {
 	progs := []string{
-		"var x = 1001\nvar x = 1002\n",                                  // redeclaration at toplevel
-		"def t { var x = 1001\n var x = 1002 }\n",                       // redeclaration in a block
-		"var x = 1001\ndef t { var x = x + 1002\n f = x }\nprint x\n",   // shadowing, initializer sees outer
+		"var x = 1001\nvar x = 1002\n",                                // redeclaration at toplevel
+		"def t { var x = 1001\n var x = 1002 }\n",                     // redeclaration in a block
+		"var x = 1001\ndef t { var x = x + 1002\n f = x }\nprint x\n", // shadowing, initializer sees outer
 		"var x = 1001\ndef t { var x = 1002\n def u { var x = 1003\n g = x } f = x }\nprint x\n",
 		"def t { f = 1001\n def u { g = f\n f = 1002\n h = f } k = f }\n", // field read from enclosing block, write local
-		"def t { var f = 1001\n f = 1002\n g = f }\n",                    // assignment hits the variable, not a field
-		"def t { f = 1001\n var f = 1002\n g = f }\n",                    // later variable shadows the field
-		"print y\n",                                                      // unknown at toplevel
-		"eval y = 1001\n",                                                // assignment to unknown at toplevel
-		"def t { g = y }\n",                                              // unknown in block: runtime error
-		"def t { var v = v }\n",                                          // self reference with nothing outer
-		"var x\nprint x\neval x = 1001\nprint x\n",                       // uninitialised is nil
-		"var x = 1001\neval x = (x = x + 1002) + x\nprint x\n",           // nested assignment, evaluation order
-		"def t { x = 1001\n x = x + 1002\n y = (x = 1003) + x }\n",        // field re-assignment in expressions
+		"def t { var f = 1001\n f = 1002\n g = f }\n",                     // assignment hits the variable, not a field
+		"def t { f = 1001\n var f = 1002\n g = f }\n",                     // later variable shadows the field
+		"print y\n",                                // unknown at toplevel
+		"eval y = 1001\n",                          // assignment to unknown at toplevel
+		"def t { g = y }\n",                        // unknown in block: runtime error
+		"def t { var v = v }\n",                    // self reference with nothing outer
+		"var x\nprint x\neval x = 1001\nprint x\n", // uninitialised is nil
+		"var x = 1001\neval x = (x = x + 1002) + x\nprint x\n",                    // nested assignment, evaluation order
+		"def t { x = 1001\n x = x + 1002\n y = (x = 1003) + x }\n",                // field re-assignment in expressions
 		"var a = 1001\ndef t { def u { def w { f = a\n a = 1002 } } }\nprint a\n", // toplevel var from depth 3
-		"def t { var a = 1001 }\nprint a\n",                              // block variable gone after the block
-		"def t { var a = 1001\n def u { var b = a } \n c = b }\n",        // inner variable gone: b is a field lookup
-		"def a { x = 1001\n def b { x = 1002\n def c { y = x } } }\n",   // nearest enclosing block wins (depth 3)
+		"def t { var a = 1001 }\nprint a\n",                                       // block variable gone after the block
+		"def t { var a = 1001\n def u { var b = a } \n c = b }\n",                 // inner variable gone: b is a field lookup
+		"def a { x = 1001\n def b { x = 1002\n def c { y = x } } }\n",             // nearest enclosing block wins (depth 3)
 		"def a { x = 1001\n def b { z = 1002\n def c { y = x\n w = z } } }\n",
 		"def a { x = 1001\n def b { x = 1002\n def c { x = 1003\n def d { y = x } } } }\n",
-		"def a { x = 1001\n def b { def c { x = 1002 }\n y = x } }\n",  // a sibling's child does not count
-		"def t { x = nil\n y = x\n print x }\n",                          // a field holding nil is still a field
-		"def a { x = 1001\n def b { x = nil\n y = x } }\n",                // inner nil field shadows the outer one
-		"var u\ndef t { f = u\n g = f\n print g }\n",                      // uninitialised variable into a field
-		"def t { var z = 1001\n def u { } }\nprint z\n",                   // block variable gone although a nested block followed
+		"def a { x = 1001\n def b { def c { x = 1002 }\n y = x } }\n", // a sibling's child does not count
+		"def t { x = nil\n y = x\n print x }\n",                       // a field holding nil is still a field
+		"def a { x = 1001\n def b { x = nil\n y = x } }\n",            // inner nil field shadows the outer one
+		"var u\ndef t { f = u\n g = f\n print g }\n",                  // uninitialised variable into a field
+		"def t { var z = 1001\n def u { } }\nprint z\n",               // block variable gone although a nested block followed
 		"def t { var z = 1001\n def u { } }\ndef w { var z = 1002\n f = z }\n",
 		"def t { var p = 1001\n def u { } }\ndef w { p = 1002\n q = p }\n", // p is a field in w
 		"def t { var v = 1001 }\ndef u { v = 1002 }\n",                     // first variable of the program declared in a block
 		"def t { var v = 1001\n def i { var w = 1002 } x = v }\ndef u { v = 1003\n w = v }\n",
+		// a variable declared after a field of the same name was used, initialised from it
+		"def b { x = 1001\n var x = x + 1002\n print x\n y = x }\n",
+		"def a { x = 1001\n def b { var x = x + 1002\n print x\n x = 1003\n print x }\n print x }\n",
+		"def b { x = 1001\n var x = x\n var y = (x = x + 1002) + x\n print x\n print y }\n",
+		"def b { x = 1001\n print x\n var x = 1002\n print x\n def c { print x\n x = 1003\n print x } }\n",
+		"var q = 1001\ndef b { print q\n q = 1002\n print q\n var q = q + 1003\n print q }\nprint q\n",
 	}
 	src := progs[verif.Choice("prog", len(progs))]
 	values := map[string]any{}
